@@ -158,6 +158,7 @@ func setupWorkspace(repoDir, verifDir, prop string) (*Workspace, error) {
 	if err != nil {
 		return nil, err
 	}
+	repoRoot = filepath.Clean(repoDir)
 	ws := &Workspace{Scratch: scratch, RepoDir: repoDir, VerifDir: verifDir, Overlay: map[string]string{}, Env: goEnv()}
 	// alt.mod / alt.sum
 	mod, err := os.ReadFile(filepath.Join(repoDir, "go.mod"))
